@@ -1,22 +1,24 @@
 (* tsbatch model driver (C04 batch model, C17 deadline model).  Requests (one line each):
 
-   batch <retain> <keybypath> <hascancel> <isroot> <namesseeenv>
+   batch <retain> <keybypath> <hascancel> <isroot> <namesseeenv> <namescontained> <continueonerror>
          H <n> (<hexname> <hexvalue>)*            host environment
          T <n> (<hexpathvalue> <hexprog> <0|1>)*  execpath.Look over host directories
          L <hexhelper>
          N <n> (script)*
          SCHED <i>*                               explicit prefix of the schedule; completed round-robin
-     script := S <setuperr> A <n> (<path> <hexdata>)* Q <n> <path>* V <n> (<hexname> <value>)* D <n> (<id> <bad>)* B <n> (action)*
+     script := S <setuperr> A <n> (<path> <hexdata>)* Q <n> <path>* X <idx|-> V <n> (<hexname> <value>)* D <n> (<id> <bad>)* B <n> (action)*
      value  := L:<hex> | W:<path>
      path   := "." | seg(/seg)*
      action := W <path> <hex> | M <path> <ro> | X <path> | C <path> | E <hexk> <hexv> | P <path> <keep>
-             | D <id> <bad> | G <h> <neg> | O | F | K | T | Z | I <neg> <hexprog> action
+             | D <id> <bad> | G <h> <neg> | O | F | K | T | Z | N (kill) | Y (kill; wait) | I <neg> <hexprog> action
      -> per script "<verdict> regs=.. runs=.. bg=../../.. wp=<0|1> setup=<env>@<tree> probes=<n>(;<cwd>@<env>@<tree>)* conds=.. final=<tree>"
         joined by " | ", then " || root=<0|1> removals=<n> cancelled=<0|1> refcount=<n> alone=<ok|DIFF>"
 
    deadline <until> <eps> <e|-> <i|-> <sigma> <waitok> <neg>
      -> grace=.. ctx=.. kd=.. then for the oracle with all delays 0 and the one with all delays sigma:
         res= int= intok= kill= ret= verdict=
+
+   empty <retain> <hascancel> -> root=<0|1> removals=<n> cancelled=<0|1>     (RunT without any script)
 
    ucheck -> closed=<bool> good=<bool> states=<n>    (the finite interleaving system, all parameters) *)
 
@@ -55,6 +57,7 @@ let rec parse_action () : action =
   | "D" -> let i = next_int () in ADefer (nat_of_int i, bool_of (next ()))
   | "G" -> let h = next_int () in ABg (nat_of_int h, bool_of (next ()))
   | "O" -> AProbe | "F" -> AFail | "K" -> ASkip | "T" -> AStop | "Z" -> APanic
+  | "N" -> AKill | "Y" -> AKillWait
   | "I" -> let neg = bool_of (next ()) in let prog = bytes_of_hex (next ()) in AIfExec (neg, prog, parse_action ())
   | t -> failwith ("bad action " ^ t)
 
@@ -64,13 +67,14 @@ let parse_script (self : int) : script =
   let files = times n (fun () -> let p = path_of_string (next ()) in (p, bytes_of_hex (next ()))) in
   expect "Q"; let n = next_int () in
   let wn = times n (fun () -> path_of_string (next ())) in
+  expect "X"; let esc = (let t = next () in if t = "-" then None else Some (nat_of_int (int_of_string t))) in
   expect "V"; let n = next_int () in
   let adds = times n (fun () -> let k = bytes_of_hex (next ()) in (k, parse_value self (next ()))) in
   expect "D"; let n = next_int () in
   let defs = times n (fun () -> let i = next_int () in (nat_of_int i, bool_of (next ()))) in
   expect "B"; let n = next_int () in
   let body = times n parse_action in
-  { archive = files; work_named = wn; setup_adds = adds; setup_defers = defs; setup_err = se; body = body }
+  { archive = files; work_named = wn; escaping_at = esc; setup_adds = adds; setup_defers = defs; setup_err = se; body = body }
 
 (* ---- canonical rendering (the Go runner renders its observations the same way) *)
 let render_value (v : value) : string =
@@ -124,7 +128,7 @@ let render_script (ss : sstate) : string =
 let do_batch () : string =
   let retain = bool_of (next ()) in let kbp = bool_of (next ()) in
   let hc = bool_of (next ()) in let root = bool_of (next ()) in
-  let nse = bool_of (next ()) in
+  let nse = bool_of (next ()) in let nco = bool_of (next ()) in let coe = bool_of (next ()) in
   expect "H"; let n = next_int () in
   let host = times n (fun () -> let k = bytes_of_hex (next ()) in (k, bytes_of_hex (next ()))) in
   expect "T"; let n = next_int () in
@@ -136,7 +140,7 @@ let do_batch () : string =
   expect "SCHED";
   let pre = List.map (fun t -> nat_of_int (int_of_string t)) !toks in
   toks := [];
-  let cfg = { retain = retain; key_by_path = kbp; names_see_env = nse; has_cancel = hc; is_root = root; hostenv = host; hosttab = tab; helper = helper } in
+  let cfg = { retain = retain; key_by_path = kbp; names_see_env = nse; names_contained = nco; empty_cleans = true; continue_on_error = coe; has_cancel = hc; is_root = root; hostenv = host; hosttab = tab; helper = helper } in
   let maxb = List.fold_left (fun m p -> Stdlib.max m (int_of_nat (steps_bound p))) 0 progs in
   let sched = pre @ round_robin (nat_of_int n) (nat_of_int maxb) in
   let st = run cfg progs (init progs) sched in
@@ -172,6 +176,13 @@ let do_deadline () : string =
     (int_of_z (grace (z_of_int until))) (int_of_z (ctx_deadline Z0 (z_of_int eps) (z_of_int until)))
     (int_of_z (fg_kill_delay (z_of_int until))) (hex_of_bytes timed_out_message) (show 0) (show sigma)
 
+let do_empty () : string =
+  let retain = bool_of (next ()) in let hc = bool_of (next ()) in
+  let cfg = { retain = retain; key_by_path = true; names_see_env = true; names_contained = true; empty_cleans = true;
+              continue_on_error = false; has_cancel = hc; is_root = true; hostenv = []; hosttab = []; helper = [] } in
+  let st = start cfg [] in
+  Printf.sprintf "root=%s removals=%d cancelled=%s" (b01 st.sh.root_present) (int_of_nat st.sh.root_removals) (b01 st.sh.cancelled)
+
 let do_ucheck () : string =
   let cl = List.for_all (fun p -> closed p (reach p)) all_params in
   let gd = List.for_all (fun p -> List.for_all (ugood p) (reach p)) all_params in
@@ -183,5 +194,6 @@ let () = serve (fun ts ->
   match next () with
   | "batch" -> do_batch ()
   | "deadline" -> do_deadline ()
+  | "empty" -> do_empty ()
   | "ucheck" -> do_ucheck ()
   | _ -> "BAD-REQUEST")
